@@ -183,7 +183,7 @@ def run(ctx):
     exe = ctx.build_harness("prop_harness", san=True)
     drv = ctx.ocaml_driver("drv_prop")
     env = ctx.run_env(leak=True)
-    env["ASAN_OPTIONS"] += ":max_allocation_size_mb=2048:fast_unwind_on_malloc=0"   # full stacks through libyaml
+    env["ASAN_OPTIONS"] += ":max_allocation_size_mb=2048"
     env["PROP_TMP"] = ctx.tmp
     c_cmd, m_cmd = [exe], [drv]
     seen = set()
